@@ -2009,7 +2009,7 @@ Additional mappings can be provided.
 
             mat = re.search(r"^\[([^]]+)\]\s*(.*)", line) # look for a line like [create] ...
             if mat:
-                if mode and mode != mat.group(1):
+                if mode != mat.group(1):
                     continue
                 line = mat.group(2)
             elif mode:
